@@ -262,13 +262,15 @@ ADDENDA10 = {
     "C01": " C01.17 the reserved words are consulted; C01.18 positive type tests in the value writer.",
     "C03": " C03.12 sense of the distinct-qubits refusal; C03.13 the address of the walk is a balanced stack and the start / end tests of trace_statements have the stated sense; C03.14 shape of the sparse product (row decoded from the output index, column encoding the input index, same qubit order on both sides, running bit, cleared mask, buffers exchanged and cleared) -- the arithmetic is still not evaluated.",
     "C06": " C06.20 _depends_on_parameter walks while there is a link; C06.21 absent slice bounds get their defaults.",
-    "C08": " C08.20 the trace walk returns early only without traces; C08.21 the address of the walk is a balanced stack (every yield and pop after exactly one push, every push popped before the exit, counter and last component move together) and the start / end tests of trace_statements have the stated sense.",
-    "C09": " C09.15 the subcircuit builder writes the count it is given.",
-    "C13": " C13.24 condition under which a made-up definition is busy; C13.25 the relinker passes every constructor field.",
-    "C14": " C14.17 upper bound compared when the size is known; C14.18 absent slice bounds get their defaults.",
+    "C08": " C08.20 the trace walk returns early only without traces; C08.21 the address of the walk is a balanced stack (every yield and pop after exactly one push, every push popped before the exit, counter and last component move together) and the start / end tests of trace_statements have the stated sense; C08.22 the superseded-after-gates refusal compares the gate count with its snapshot at entry of the body.",
+    "C09": " C09.15 the subcircuit builder writes the count it is given; C09.16 no rebuilding visitor decides `unchanged` by structural equality of a visited child.",
+    "C13": " C13.24 condition under which a made-up definition is busy; C13.25 the relinker passes every constructor field; C13.26 the parallel-branch refusal does not read the loop variables; C13.27 the splice tests of macro expansion are plain conjuncts; C13.28 no `unchanged` decision by structural equality.",
+    "C14": " C14.17 upper bound compared when the size is known; C14.18 absent slice bounds get their defaults; C14.19 each symbolic component of Register / NamedQubit has a kind guard that reads its own kind.",
     "C15": " C15.17 the trace walk returns early only without traces; C15.18 sense of the two cutoffs.",
-    "C16": " C16.30 sense of the distinct-qubits refusal; C16.31 the memo of contains_subcircuit is only made when absent.",
+    "C16": " C16.30 sense of the distinct-qubits refusal; C16.31 the memo of contains_subcircuit is only made when absent; C16.32 every import call reachable from the eviction in jaqal_import is rolled back by a restoring handler.",
     "C18": " C18.19 AbstractGate.copy applies each override when it is given.",
+    "C04": " C04.14 the splice tests of macro expansion (same kind, not a subcircuit) are plain conjuncts.",
+    "C12": " C12.10 the superseded-after-gates refusal compares the gate count with its snapshot at entry of the body.",
 }
 for _pid, _txt in ADDENDA10.items():
     if _pid in PROPS:
